@@ -115,13 +115,15 @@ def apply_edit(kind, obj, rng):
             i = rng.randrange(n)
             missing = all(np.isnan(np.asarray(getattr(it, a))[i]).all() for a in attrs)
             how = "fill" if missing else rng.choice(["blank", "poke", "poke", "replace-array"])
+            flip = rng.choice([None, None, "<f8", "<f4"])
             for a in attrs:
                 arr = getattr(it, a)
                 row = arr[i]
                 if how == "blank":
                     _w(it, a, i, np.nan)
                 elif how == "replace-array":
-                    new = np.array(arr, copy=True)
+                    # a NEW array object, now and then of the other float width (float32 <-> float64: both are accepted)
+                    new = np.array(arr, copy=True).astype(flip) if flip else np.array(arr, copy=True)
                     new[i] = [_fin(rng) for _ in range(np.size(row))] if np.ndim(row) else _fin(rng)
                     setattr(it, a, new)
                 else:
@@ -160,9 +162,16 @@ def apply_edit(kind, obj, rng):
     if kind == "events":
         if items and r < 0.8:
             e = rng.choice(items)
-            if len(e.values) and r < 0.5:
+            if len(e.values) and r < 0.35:
                 _w(e, "values", rng.randrange(len(e.values)), _fin(rng))
                 return "event value poked"
+            if r < 0.55:
+                # the values attribute re-assigned: a float64 array (what np.append / arithmetic give), same or one more value
+                vals = np.asarray(e.values, dtype="<f8")
+                if e.type.value == 1 or len(vals) == 0:
+                    vals = np.append(vals, float(_fin(rng)))
+                e.values = vals
+                return "event values re-assigned (float64)"
             e.label = A.text(A.gen_label(rng, 256))
             return "event relabelled"
         obj.start_time = _fin(rng)
